@@ -62,6 +62,17 @@ PRED_BOOL = {'std::option::Option::<T>::is_some': ('Some', 'None'), 'std::option
              'std::result::Result::<T, E>::is_ok': ('Ok', 'Err'), 'std::result::Result::<T, E>::is_err': ('Err', 'Ok')}
 
 
+def _distinct_defs(ds):
+    """number of different definitions: the same statement / call copied into several blocks (jump threading) is one"""
+    keys = set()
+    for (bb, idx, kind, data, dproj) in ds:
+        if kind == 'assign':
+            keys.add(('a', repr(data), repr(dproj)))
+        else:
+            keys.add(('c', repr(data.get('func')), repr(data.get('args')), repr(dproj)))
+    return len(keys)
+
+
 class Flow:
     def __init__(self, body):
         self.body = body
@@ -183,12 +194,28 @@ class Flow:
         ty = self.body.local_ty(local)
         res = defaultdict(set)
         seen = set()
-        work = [(local, 'val', ty, False)]   # (local, mode, type-of-original, negated)
+        # `direct`: the local still holds nothing but the queried value (it is the queried local, or is defined only by the
+        # step that carried the value into it). A local that other definitions reach as well (`x = if c { Ok(v) } else { call()? }`)
+        # is tested for ALL of them: edges that jump threading took in place of its switch are credited only to direct locals.
+        real_call_ = bb is not None and self.body.blocks[bb]['term'].get('k') == 'call' and 'dst' in self.body.blocks[bb]['term']
+        direct_of = {local: (not real_call_) or _distinct_defs(self.defs.get(local, [])) == 1}
+        cur_ = [local]
+        defs_ = self.defs
+
+        class _Work(list):
+            def append(w, item):
+                d_ = item[0]
+                nd_ = direct_of.get(cur_[0], False) and _distinct_defs(defs_.get(d_, [])) == 1
+                direct_of[d_] = nd_ if d_ not in direct_of else (direct_of[d_] and nd_)
+                list.append(w, item)
+        work = _Work()
+        list.append(work, (local, 'val', ty, False))   # (local, mode, type-of-original, negated)
         while work:
             l, mode, ty0, neg = work.pop()
             if (l, mode, neg) in seen:
                 continue
             seen.add((l, mode, neg))
+            cur_[0] = l
             for (ubb, uidx, role) in self.uses[l]:
                 blk = self.body.blocks[ubb]
                 if uidx == 'term':
@@ -196,10 +223,10 @@ class Flow:
                     if mode.startswith('wrap:'):
                         continue
                     if t['k'] == 'switch' and role == 'switch' and not t['on']['p']['proj']:
-                        self._record_switch(res, ubb, t, mode, ty0, neg)
+                        self._record_switch(res, ubb, t, mode, ty0, neg, direct=direct_of.get(l, False))
                     elif t['k'] == 'switch' and role == 'switch' and mode == 'val' and self._payload_proj(t['on']['p']['proj']) == 'bool':
                         # `match r { Ok(true) => .., Ok(false) => .. }`: a switch directly on the payload (r as Ok).0
-                        self._record_switch(res, ubb, t, 'val', 'bool', neg)
+                        self._record_switch(res, ubb, t, 'val', 'bool', neg, direct=direct_of.get(l, False))
                     elif t['k'] == 'call':
                         c = callee(t) or ''
                         if role == 'arg:0' and not t['args'][0]['p']['proj'] and not t['dst']['proj']:
@@ -274,7 +301,7 @@ class Flow:
             return proj[1].get('ty') or ''
         return None
 
-    def _record_switch(self, res, bb, t, mode, ty0, neg):
+    def _record_switch(self, res, bb, t, mode, ty0, neg, direct=False):
         names = self._variant_names(mode, ty0)
         if names is None:
             return
@@ -290,6 +317,11 @@ class Flow:
                 res[n].add((bb, tgt, v))
                 for (b0, tg0) in self.cfg.threaded.get((bb, v), []):
                     res[n].add((b0, tg0, None))
+                if direct:
+                    # edges inline.thread_jumps took in place of this switch edge: they belong to the tested LOCAL (every
+                    # assignment of it), not to one value that flows into it among others
+                    for (b0, tg0) in self.cfg.threaded_via.get((bb, v), []):
+                        res[n].add((b0, tg0, None))
         rest = [n for v, n in names.items() if v not in listed]
         if len(rest) >= 1:
             for n in rest:
@@ -298,6 +330,9 @@ class Flow:
                 res[n].add((bb, t['otherwise'], 'otherwise'))
                 for (b0, tg0) in self.cfg.threaded.get((bb, 'otherwise'), []):
                     res[n].add((b0, tg0, None))
+                if direct:
+                    for (b0, tg0) in self.cfg.threaded_via.get((bb, 'otherwise'), []):
+                        res[n].add((b0, tg0, None))
 
     def _variant_names(self, mode, ty0):
         optres = ty0.startswith('optres:')
